@@ -38,6 +38,10 @@ def SmallOp : Op → Prop
 theorem R_init (al : Nat) : R al ACur.init SCur.init :=
   ⟨rfl, rfl, fun i => by simp [ACur.init, SCur.init], Nat.le_refl _, ⟨0, by simp [ACur.init]⟩⟩
 
+/-- … and so is a cursor created by `with_capacity(c)`, for every `c` (also `default()`, which is `new()`). -/
+theorem R_withCapacity (al c : Nat) : R al (ACur.withCapacity al c) SCur.init :=
+  ⟨rfl, rfl, fun i => by simp [ACur.withCapacity, SCur.init], Nat.zero_le _, ⟨ceilDiv c al, Nat.mul_comm _ _⟩⟩
+
 theorem ceilDiv_mul_ge (n al : Nat) (h : 0 < al) : n ≤ ceilDiv n al * al := by
   unfold ceilDiv
   have h1 := Nat.div_add_mod (n + (al - 1)) al
@@ -230,6 +234,15 @@ theorem cursor_refines (al : Nat) (hal : 0 < al) (ops : List Op) (hg : GuardAlon
     (ACur.run al ACur.init ops).1.len = (SCur.run SCur.init ops).1.buf.length ∧
     (ACur.run al ACur.init ops).1.pos = (SCur.run SCur.init ops).1.pos := by
   obtain ⟨h1, h2⟩ := run_refines al hal ops _ _ (R_init al) hg
+  exact ⟨h1, observers al _ _ h2⟩
+
+/-- The same from a cursor created with any capacity. -/
+theorem cursor_refines_withCapacity (al c : Nat) (hal : 0 < al) (ops : List Op) (hg : GuardAlong SCur.init ops) :
+    (ACur.run al (ACur.withCapacity al c) ops).2 = (SCur.run SCur.init ops).2 ∧
+    (ACur.run al (ACur.withCapacity al c) ops).1.asBytes = (SCur.run SCur.init ops).1.buf ∧
+    (ACur.run al (ACur.withCapacity al c) ops).1.len = (SCur.run SCur.init ops).1.buf.length ∧
+    (ACur.run al (ACur.withCapacity al c) ops).1.pos = (SCur.run SCur.init ops).1.pos := by
+  obtain ⟨h1, h2⟩ := run_refines al hal ops _ _ (R_withCapacity al c) hg
   exact ⟨h1, observers al _ _ h2⟩
 
 /-- Writing past the end zero-fills the gap (the case the property singles out), as a direct
